@@ -282,6 +282,10 @@ def state_worker(item: Tuple[str, int, Tuple[int, ...]]) -> Dict[str, Any]:
             table["first"] = first
             o1 = outcome(used, "first")
             desc = f"after parse of a 2-token input that {o1[0]}s"
+        elif mode == "repeat":
+            fz = []
+            o1 = outcome(used, "query")
+            desc = f"after a first parse of the same input that {o1[0]}s"
         else:
             try:
                 used.parse("query")  # materialise the attributes, outcome irrelevant
@@ -302,7 +306,7 @@ def state_worker(item: Tuple[str, int, Tuple[int, ...]]) -> Dict[str, Any]:
         m = ctx.ensure_model()
         kinds = [int(frac_of(m.eval(z, model_completion=True))) for z in kz]
         extra = None
-        if mode == "history":
+        if mode in ("history", "repeat"):
             extra = [int(frac_of(m.eval(z, model_completion=True))) for z in fz]
         else:
             extra = [int(frac_of(m.eval(z3.Int("hv_kind"), model_completion=True))), nlist]
@@ -340,6 +344,9 @@ def concrete_state(mode: str, kinds: List[int], extra: Any) -> str:
         first = " ".join(PP.token_text(5 + i, k) for i, k in enumerate(extra))
         o1 = outcome(used, first)
         desc = f"after parse({first!r}) ({o1[0]})"
+    elif mode == "repeat":
+        o1 = outcome(used, text)
+        desc = f"after a first parse({text!r}) ({o1[0]})"
     else:
         try:
             used.parse(text)
@@ -383,8 +390,9 @@ def extend(rep: Report, tier: str) -> None:
         for pre in itertools.product(PP.KINDS, repeat=min(N, 1)):
             items.append(("state", ("havoc", N, pre)))
             items.append(("state", ("history", N, pre)))
+            items.append(("state", ("repeat", N, pre)))
     rep.bounds["characters"] = f"every string of <= {Lmax} arbitrary code points through the public parse(text)"
-    rep.bounds["sticky_state"] = (f"query of <= {Nq} token kinds after (a) a parse of any 2-token input on the same parser, "
+    rep.bounds["sticky_state"] = (f"query of <= {Nq} token kinds after (a) a parse of any 2-token input or of the same input on the same parser, "
                                   f"(b) havoc: every per-parse attribute {instance_attrs()} overwritten with arbitrary values "
                                   "(current_token of any kind incl. EOF/Invalid, stale token lists, None)")
     rep.stubs.append("float()/int() of a symbolic digit string inside mathy_core.tokenizer: ValueError unless >=1 digit and "
